@@ -499,9 +499,10 @@ class World:
                 return thunk()
             return call(d - 1)
 
+        inj = MemoryError if (intr and intr.get("exc") == "MemoryError") else None
         sc.arm(fine=fine, interrupt_at=at,
                sweep_cap=cfg.get("sweep_cap") or self.DEFAULT_SWEEP_CAP,
-               step_cap=cfg.get("step_cap") or self.DEFAULT_STEP_CAP)
+               step_cap=cfg.get("step_cap") or self.DEFAULT_STEP_CAP, interrupt_exc=inj)
         if kill:
             # the clock raises; the disk must know before any finaliser (`with`) runs
             keep = float(kill.get("keep", 0.0))
@@ -532,6 +533,9 @@ class World:
                 out["status"] = "exc"
                 out["etype"] = type(e).__name__
                 out["emsg"] = str(e)
+                if inj is not None and isinstance(e, MemoryError) and str(e).startswith("injected at "):
+                    out["injected"] = "MemoryError"
+                    out["site"] = str(e)[len("injected at "):]
                 out["is_oserror"] = isinstance(e, OSError)
                 e.__traceback__ = None
                 del e
@@ -562,6 +566,9 @@ class World:
             self.fired("io-" + k)
         if out["status"] == "interrupt":
             self.fired("kill" if kill else "sigint")
+        if sc.interrupt_site is not None and inj is not None:
+            self.fired("memoryerror")
+            out.setdefault("injected", "MemoryError(swallowed)" if out["status"] == "ok" else "MemoryError")
         if clk.mode != "steady" and clk.reads:
             self.fired("clock-" + clk.mode)
         if cfg.get("log"):
